@@ -49,6 +49,9 @@ def clutter(rng, cfg):
     for k in (17, 18, 19, 20):
         pool.append(fixed + b"_r2" + b"0" * (k - 2) + "ü€".encode() + b"z" + sfx)
     pool.append(fixed + b"_r2023-11-05_kopie_f" + "ür_jo".encode() + sfx)
+    # a file named exactly like the fixed name part (and its archive): with a basename that ends like the suffix ("srv.log" +
+    # suffix "log") its stem is SHORTER than the fixed name part
+    pool += [fixed, fixed + b".gz"]
     pool = [n for n in pool if n]      # (an empty name is no file name)
     return rng.sample(pool, rng.randint(1, min(5, len(pool))))
 
@@ -59,7 +62,7 @@ def gen_flw(rng, tier):
         naming = g.custom_naming(rng.choice([None, None, b"rNOW", b"rC"]), rng.choice(FORMATS))
     else:
         naming = rng.choice(g.NAMINGS)
-    base = rng.choice([b"a", b"app", b"", "é".encode(), b"my.prog", b"a b"])
+    base = rng.choice([b"a", b"app", b"", "é".encode(), b"my.prog", b"a b", b"srv.log", b"x.trc"])
     disc = rng.choice([None, None, b"d", b"", "ü".encode()])
     cfg = g.Cfg(base=base, disc=disc, sfx=rng.choice([b"log", b"log", None, b"trc", "lög".encode()]),
                 crit=rng.choice(["s0", "s8", "as", "xm8", None]), naming=naming,
@@ -96,6 +99,19 @@ def corpus():
         h("info"), h("A") + ":c:5", h("a"), h("{"), h("m"), h("{"), h("{é"), h("m"), h("{é"), h("{}"), h("m"), h(""), h("m"))]
     c = g.Cfg(crit="s8", naming="tsd", append=True)
     out.append("flw %d 0 ; XC:%s:0:%s B:%s W:%s S SN" % (g.T0, g.hx(c.name(b"r00001")), g.hx(b"x\n"), c.token(), g.hx(b"A0\n")))
+    # fixed defect (f4bce48): the clock set back under TimestampsDirect naming with a cleanup strategy - the file opened by the next
+    # rotation sorts behind its predecessors and the cleanup removed / compressed the file being written; now it is skipped
+    for cl in ("l1", "g1", "b1.1"):
+        c = g.Cfg(base=b"a", crit="s5", naming="tsd", cleanup=cl)
+        out.append("flw %d 0 ; B:%s W:%s K:5 W:%s F SN K:-3600 W:%s F SN W:%s F SN W:%s S SN" % (
+            g.T0, c.token(), g.hx(b"A0aaaa\n"), g.hx(b"B1bbbb\n"), g.hx(b"C2cccc\n"), g.hx(b"D3\n"), g.hx(b"E4eeee\n")))
+    # a basename that ends like the suffix, and files named exactly like the fixed name part / its archive: their stems are
+    # shorter than the fixed name part (whoever slices the stem at the length of the fixed part panics)
+    for naming in g.NAMINGS[:4]:
+        for cl in ("n", "g1"):
+            c = g.Cfg(base=b"srv.log", sfx=b"log", crit="s8", naming=naming, cleanup=cl, append=naming == "tsd")
+            out.append("flw %d 0 ; XC:%s:0:%s XC:%s:1:%s B:%s W:%s W:%s Q:111:~ T W:%s S SN" % (
+                g.T0, g.hx(b"srv.log"), g.hx(b"x\n"), g.hx(b"srv.log.gz"), g.hx(b"y\n"), c.token(), g.hx(b"A0aaaaaaaa\n"), g.hx(b"B1\n"), g.hx(b"C2\n")))
     return out
 
 
